@@ -3,7 +3,7 @@
    Case layout (all integers zigzag via pint; strings are indices into the case's table):
      strtab   : n, n byte strings
      nodes    : n, (id lon lat tags meta)*
-     ways     : n, (id nodes:(id lon lat)* tags meta area)*
+     ways     : n, (id nodes:(id lon lat)* tags meta area)*     area = what w.Polygon() answered
      relations: n, (id members:(type ref role orient nodes:(id lon lat)* )* tags meta)*
        tags = n (k v)* ; meta = ts(0 = zero time) version changeset user uid ; type 1 node 2 way 3 relation
      unchanged: bool     the deep copy of the input taken before all runs equals the input after
@@ -18,6 +18,7 @@
           2 = the property oracle (Spec.v) fails on the observation: duplicate keys, a feature
               that does not carry its element, point/line/polygon/route rule, an option that
               changed more than it documents, a differing second run, a modified input
+          3 = C18's model of Way.Polygon (way_area) differs from the implementation's answer for a way
           0 = case does not parse *)
 From Coq Require Import ZArith String List Bool.
 From Verif Require Import Base.Wire C17.Model C17.Mputil C17.Spec.
@@ -44,18 +45,19 @@ Section Parse.
   Definition pnode : P node :=
     i <- pint ;; x <- pint ;; y <- pint ;; t <- ptags ;; m <- pmeta ;;
     ret {| n_id := i; n_lon := x; n_lat := y; n_tags := t; n_meta := m |}.
-  Definition pway : P way :=
+  Definition pway : P (way * bool) :=
     i <- pint ;; ns <- plist pwnode ;; t <- ptags ;; m <- pmeta ;; a <- pbool ;;
-    ret {| w_id := i; w_nodes := ns; w_tags := t; w_meta := m; w_area := a |}.
+    ret ({| w_id := i; w_nodes := ns; w_tags := t; w_meta := m |}, a).
   Definition pmember : P member :=
     ty <- petype ;; r <- pint ;; role <- pstr ;; o <- pint ;; ns <- plist pwnode ;;
     ret {| m_type := ty; m_ref := r; m_role := role; m_orient := o; m_nodes := ns |}.
   Definition prel : P relation :=
     i <- pint ;; ms <- plist pmember ;; t <- ptags ;; m <- pmeta ;;
     ret {| r_id := i; r_members := ms; r_tags := t; r_meta := m |}.
-  Definition posm : P osm :=
+  Definition posm : P (osm * bool) :=
     ns <- plist pnode ;; ws <- plist pway ;; rs <- plist prel ;;
-    ret {| nodes := ns; ways := ws; relations := rs |}.
+    ret ({| nodes := ns; ways := map fst ws; relations := rs |},
+         forallb (fun wa => Bool.eqb (way_area (fst wa)) (snd wa)) ws).
 
   Definition ppt : P pt := ppair pint pint.
   Definition pline : P (list pt) := plist ppt.
@@ -89,11 +91,11 @@ Section Parse.
   Definition prun : P (Z * bool * list feature) :=
     b <- pint ;; same <- pbool ;; fs <- plist pfeature ;; ret (b, same, fs).
 
-  Definition pbody : P (osm * bool * list (Z * bool * list feature)) :=
-    d <- posm ;; unchanged <- pbool ;; runs <- plist prun ;; ret (d, unchanged, runs).
+  Definition pbody : P (osm * bool * list (Z * bool * list feature) * bool) :=
+    da <- posm ;; unchanged <- pbool ;; runs <- plist prun ;; ret (fst da, unchanged, runs, snd da).
 End Parse.
 
-Definition pcase : P (osm * bool * list (Z * bool * list feature)) :=
+Definition pcase : P (osm * bool * list (Z * bool * list feature) * bool) :=
   tab <- plist pstring ;; pbody tab.
 
 Definition find_run (bits : Z) (runs : list (Z * bool * list feature)) : option (list feature) :=
@@ -137,7 +139,7 @@ Definition check_parsed (c : osm * bool * list (Z * bool * list feature)) : list
 
 Definition check_case (t : toks) : list Z :=
   match parse_all pcase t with
-  | Some c => check_parsed c
+  | Some (c, areaok) => (check_parsed c ++ code_if areaok 3)%list
   | None => [0]
   end.
 
@@ -145,8 +147,8 @@ Definition check_case (t : toks) : list Z :=
    options subtract) and the model's feature list *)
 Definition explain_case (t : toks) :=
   match parse_all pcase t with
-  | Some (d, unchanged, runs) =>
-      Some (unchanged,
+  | Some (d, unchanged, runs, areaok) =>
+      Some (unchanged && areaok,
             match find_run 0 runs, find_run 8 runs with
             | Some b0, Some b8 => extends b0 b8
             | _, _ => true
@@ -160,6 +162,6 @@ Definition explain_case (t : toks) :=
   end.
 Definition model_case (t : toks) (bits : Z) : option (list feature) :=
   match parse_all pcase t with
-  | Some (d, _, _) => Some (convert_exec (opts_of_bits bits) d)
+  | Some (d, _, _, _) => Some (convert_exec (opts_of_bits bits) d)
   | None => None
   end.
